@@ -210,10 +210,22 @@ def run(ctx):
             continue
         mic = path_calls(st, 'nla::ntlm::mic')
         am = path_calls(st, AUTH)
+        # the exported session key of this handshake: the field, or the very value stored into it on this path (`let k = random(16);
+        # self.exported_session_key = Some(k.clone()); .. rc4k(&kx, &k)`)
+        stored = []
+        for ev in st.events:
+            if ev[0] == 'store' and ev[2]['p'] and ev[2]['p'][-1].get('name') == 'exported_session_key':
+                sv = strip(resolve(st, ev[3]))
+                stored.append(strip(sv[3][0]) if sv[0] == 'agg' and sv[2] == 'Some' and sv[3] else sv)
+
+        def is_esk(e):
+            if any(n[0] == 'field' and n[2] == 'exported_session_key' for n in walk(e)):
+                return True
+            return any(strip(e) == s_ for s_ in stored)
         good = len(mic) == 1 and len(am) == 1
         if good:
             a0, a1, a2, a3 = [resolve(st, x) for x in mic[0][2]]
-            f0 = any(n[0] == 'field' and n[2] == 'exported_session_key' for n in walk(a0))
+            f0 = is_esk(a0)
             f1 = any(n[0] == 'field' and n[2] == 'negotiate_message' for n in walk(a1))
             f2 = unwrap_cast(a2) == ('param', 2) or ('param', 2) in list(walk(a2))
             # tmp message: to_vec(trame![to_vec(auth.0), vec![0;16], auth.1.clone()])
@@ -246,7 +258,7 @@ def run(ctx):
                       'read_challenge_message substitutes a default (%s) for a missing MsvAvTimestamp: the AUTHENTICATE token is then built with a client challenge '
                       'whose timestamp field is not 8 bytes long (malformed NTLMv2 response)' % sorted(set(dflt)))
         kx = path_calls(st, 'nla::ntlm::rc4k')
-        good = len(kx) == 1 and has_call(resolve(st, kx[0][2][0]), 'nla::ntlm::kx_key_v2') and any(n[0] == 'field' and n[2] == 'exported_session_key' for n in walk(resolve(st, kx[0][2][1])))
+        good = len(kx) == 1 and has_call(resolve(st, kx[0][2][0]), 'nla::ntlm::kx_key_v2') and is_esk(resolve(st, kx[0][2][1]))
         ctx.check(good, 'R15.4', 'kx', 'EncryptedRandomSessionKey = RC4K(KeyExchangeKey, ExportedSessionKey)', rc.where(),
                   'read_challenge_message does not wrap the exported session key with the key exchange key')
         if am:
